@@ -1,6 +1,7 @@
 package main
 
 import (
+	"fmt"
 	"math/big"
 
 	"github.com/tuneinsight/lattigo/v6/core/rlwe"
@@ -129,7 +130,12 @@ func rlkLeaf(c *engine.Chooser, name string, k cfg) {
 	n, Nr, B := int64(k.n), int64(params.N()), mp.XeSup(params.Xe()).Int64()
 	E := big.NewInt(2*Nr*n*n*B + n*B)
 	S := big.NewInt(n)
-	use := func(key *rlwe.RelinearizationKey, lvl int) (*big.Int, error) {
+	use := func(key *rlwe.RelinearizationKey, lvl int) (noise *big.Int, err error) {
+		defer func() {
+			if r := recover(); r != nil {
+				err = fmt.Errorf("panic: %v", r)
+			}
+		}()
 		ct, want := degree2Ciphertext(params, P.Ideal, lvl, name, "pt", lvl)
 		out := rlwe.NewCiphertext(params, 1, lvl)
 		if err := rlwe.NewEvaluator(params, rlwe.NewMemEvaluationKeySet(key)).Relinearize(ct, out); err != nil {
